@@ -672,7 +672,34 @@ def _run_ops(ops):
         m = np.array(vals, dtype=np.int32).reshape(dim, dim)
         # the matrix alphabet may be larger than the base alphabet of the k-mers (it must extend it)
         malph = st["base"] if dim == st["n"] else bseq.LetterAlphabet("ABCDEFGHIJKLMNOPQRSTUVWXYZ"[:dim])
-        return align.ScoreThresholdRule(align.SubstitutionMatrix(malph, malph, m), S(int(thr)))
+        # the score array in several spellings: int32 / int64, own array or a view of a larger buffer (block, transposed
+        # block); the rule must hold its own copy: the caller's buffer is overwritten right after the rule was built
+        LAY["i"] += 1
+        h = zlib.crc32(f"{LAY['op']}#M{LAY['i']}".encode()) if LAY["on"] else 0
+        dt = [np.int32, np.int32, np.int64, np.int32][h % 4]
+        buf = np.zeros((dim + 2, dim + 3), dtype=dt)
+        kind = (h // 4) % 4
+        if kind == 0:
+            arr = m.astype(dt)
+            base_arr = arr
+        elif kind == 1:
+            arr = buf[1:dim + 1, 2:dim + 2]
+            arr[...] = m
+            base_arr = buf
+        elif kind == 2:
+            arr = buf[:dim, :dim].T
+            arr[...] = m
+            base_arr = buf
+        else:
+            base_arr = np.zeros((2 * dim, dim), dtype=dt)
+            arr = base_arr[::2]
+            arr[...] = m
+        before = arr.copy()
+        rule = align.ScoreThresholdRule(align.SubstitutionMatrix(malph, malph, arr), S(int(thr)))
+        if not np.array_equal(arr, before):
+            raise RuntimeError("matrix-argument-modified")
+        base_arr[...] = 9 - 2 * base_arr + np.arange(base_arr.shape[1], dtype=dt)      # asymmetric garbage
+        return rule
 
     def mkqseq(codes, qa):
         """query sequence over a prefix alphabet of another size or over foreign symbols"""
@@ -810,10 +837,11 @@ def _run_ops(ops):
             nb = None if w[1] in ("d", "a") else int(w[1])
             cls = align.KmerTable if w[1] == "d" else align.BucketKmerTable
             kw = {} if nb is None else {"n_buckets": S(nb)}
-            msz = _parse_nats(w[5])
+            msz = w[5].split(",")
             seqs = []
             for codes, m_ in zip(_parse_lists(w[3]), msz):
-                sq = bseq.GeneralSequence(bseq.LetterAlphabet("ABCDEFGHIJKLMNOPQRSTUVWXYZ"[:m_]))
+                letters = "ZYXWVUTSRQPONMLK"[:int(m_[1:])] if m_.startswith("f") else "ABCDEFGHIJKLMNOPQRSTUVWXYZ"[:int(m_)]
+                sq = bseq.GeneralSequence(bseq.LetterAlphabet(letters))
                 sq.code = L(np.array(codes, dtype=np.uint8))
                 seqs.append(sq)
             rid = None if w[2] == "-" else i64(_parse_nats(w[2]))
@@ -1226,7 +1254,18 @@ def oracle(case):
                 n_tab = n
                 if c == "seqsx":
                     nb = None if w[1] == "d" else ("auto" if w[1] == "a" else int(w[1]))
-                    msz = _parse_nats(w[5])
+                    toks = w[5].split(",")
+                    msz = [int(t_.lstrip("f")) for t_ in toks]
+                    foreign = [t_.startswith("f") for t_ in toks]
+                    # no alphabet extends sequences of both symbol families; the explicit base alphabet extends none
+                    # of the foreign ones: from_sequences must refuse (whatever the order of the references)
+                    if (w[6] == "e" and any(foreign)) or (w[6] == "d" and any(foreign) and not all(foreign)):
+                        pr = _refusal_problem("ERR:ValueError", got)
+                        if pr:
+                            bad(op, f"C10/from_sequences/incompatible-alphabets-{pr}", "ERR:ValueError", got)
+                        if got.startswith("ok"):
+                            tables.append({"items": [], "nb": nb, "tainted": True, "alph": talph})
+                        continue
                     n_tab = n if w[6] == "e" else (max(msz) if msz else n)
                     talph = (n_tab, k, talph[2])
                     c = "seqs"
@@ -2313,6 +2352,17 @@ def _seqsx_case(rng):
     ms = None
     if rng.random() < 0.3:
         ms = [None if rng.random() < 0.4 else _mask(rng, len(s_)) for s_ in refs]
+    toks = [str(m_) for m_ in msz]
+    if rng.random() < 0.35:
+        # sequences over incompatible alphabets (other symbols; same, smaller or larger size), in every order
+        n_for = rng.randint(1, n_refs)
+        for i_ in rng.sample(range(n_refs), n_for):
+            toks[i_] = "f" + str(msz[i_] + rng.choice([0, 0, 1, -1]) if msz[i_] > 2 else msz[i_])
+            refs[i_] = [min(c_, int(toks[i_][1:]) - 1) for c_ in refs[i_]]
+        ops.append(f"seqsx {nb} - {_lists(refs)} {_masks(ms)} {','.join(toks)} {mode}")
+        ops.append(f"kms {nb if nb != 'a' else 7} - 0,1 -")
+        ops.append("dump 0")
+        return {"kind": "seqsx", "ops": ops}
     ops.append(f"seqsx {nb} - {_lists(refs)} {_masks(ms)} {_nats(msz)} {mode}")
     ops.append("dump 0")
     if nb != "a":
@@ -2491,6 +2541,10 @@ def corpus():
         {"kind": "table", "ops": ["alph 4 3 3,0,1", "kmers 0,1,2,3,0,1,2", "seqs d - 0,1,2,3,0,1,2,3 -", "dump 0",
                                   "match 0 1,2,3,0,1,2 -"]},
         {"kind": "table", "ops": ["alph 3 2 0,2", "kmers 0,1,2,2,1", "seqs 2 - 0,1,2,2,1,0 -", "match 0 2,2,1,0 -"]},
+        # references over incompatible alphabets, both orders, default alphabet (common_alphabet) and explicit alphabet
+        {"kind": "seqsx", "ops": ["alph 4 2 -", "seqsx d - 0,1,2,3;0,1,2,3 - 4,f4 d", "seqsx d - 0,1,2,3;0,1,2,3 - f4,4 d",
+                                  "seqsx 3 - 0,1,2;0,1,2,3 - f3,4 d", "seqsx d - 0,1,2,3;0,1,2 - 4,f3 d",
+                                  "seqsx d - 0,1,2,3 - f4 e", "seqsx d - 0,1,2;0,1,2,3 - 3,4 d", "dump 0"]},
         # long k-mers: the leading term of the rolling update exceeds 32 bit
         {"kind": "longk", "ops": ["alph 4 17 -", "kmers 3,3,3,3,3,3,3,3,3,3,3,3,3,3,3,3,3,2,1,3",
                                   "seqs 7 - 3,3,3,3,3,3,3,3,3,3,3,3,3,3,3,3,3,2,1,3;1,3,3,3,3,3,3,3,3,3,3,3,3,3,3,3,3,2,1 -",
